@@ -15,7 +15,7 @@ RULE = (
     "computed by an own implementation of the Kafka rule from (type, pinned api key, version, pinned first flexible "
     "version) and compared by identity with __header_schema__; __flexible__ and __api_key__ compared with the pins; "
     "request/response of the same (api, version) share key and flexibility; load_response_from_request / "
-    "load_request_from_response are mutually inverse for classes and for instances. Non-trivial: every pair; distinct = "
+    "load_request_from_response are mutually inverse for classes and for instances (which of the two forms is looked up first varies by module). Non-trivial: every pair; distinct = "
     "(api key, version, type)."
 )
 
@@ -81,7 +81,12 @@ def check_one(api: str, version: int, etype: str, modname: str) -> list[tuple[st
         else (load_request_from_response, load_response_from_request)
     )
     inst = to_entity(D.describe(c), zero_tree(D.describe(c)))
-    for label, arg in (("class", c), ("instance", inst)):
+    import zlib
+
+    order = (("class", c), ("instance", inst))
+    if zlib.crc32(modname.encode()) % 2:  # which form is looked up FIRST in the process varies by module
+        order = order[::-1]
+    for label, arg in order:
         try:
             there = fwd(arg)
             again = back(there)
